@@ -104,7 +104,7 @@
     // days, hours, minutes and seconds.
     #[kani::proof]
     #[kani::stub(DurationItem::duration_formatter, formatter_probe)]
-    fn print_greedy() { print_greedy_up_to(CHRONO_MAX_SECS) }
+    fn print_greedy() { print_greedy_up_to(0x3_ffff_ffff) }   // 2^34 s = 544 years
     #[kani::proof]
     #[kani::stub(DurationItem::duration_formatter, formatter_probe)]
     fn print_greedy_below_2_31() { print_greedy_up_to(0x7fff_ffff) }
